@@ -41,6 +41,7 @@ Record env := {
   e_ids : nat;                          (* lines printed by --query-all *)
   e_node : node_status;                 (* tree.node_by_id(id) / abs_layer_bounding_box() *)
   e_content : Q * Q * Q * Q;            (* tree.root().layer_bounding_box(): x, y, w, h (w, h > 0) *)
+  e_alloc_ok : bool;                    (* Vec::try_reserve_exact of the pixel buffers succeeds (new_pixmap, fix 943ffd6) *)
   e_encode_ok : bool; e_write_ok : bool
 }.
 
@@ -73,6 +74,10 @@ Definition trim (fit : FitTo) (doc canvas : isize) (c : Q * Q * Q * Q) : rres :=
     end
   end.
 
+(* new_pixmap(size)?: Err("target size is too large") when the byte length overflows, the allocation fails, or
+   Pixmap::from_vec rejects the width (4*w > i32::MAX) *)
+Definition canvas_ok (e : env) (s : isize) : bool := pixmap_new_ok s && e_alloc_ok e.
+
 Definition render_svg (a : cli_args) (e : env) (docsize : Q * Q) : rres :=
   let fit := the_fit a in
   let doc := to_int_size (fst docsize) (snd docsize) in
@@ -84,13 +89,13 @@ Definition render_svg (a : cli_args) (e : env) (docsize : Q * Q) : rres :=
       match fit_to_size fit (to_int_size w h) with
       | None => RErr ETargetZero
       | Some size =>
-        (* Pixmap::new(..).ok_or_else(|| "target size is too large")?   (fix 925640f) *)
-        if negb (pixmap_new_ok size) then RErr ETargetTooLarge else
+        (* new_pixmap(size)?   (fixes 925640f, 943ffd6) *)
+        if negb (canvas_ok e size) then RErr ETargetTooLarge else
         if a_area_page a then
           match fit_to_size fit doc with
           | None => RErr ETargetZero
           | Some psize =>
-            if negb (pixmap_new_ok psize) then RErr ETargetTooLarge else
+            if negb (canvas_ok e psize) then RErr ETargetTooLarge else
             (* draw_pixmap is skipped when IntRect::from_xywh(x, y, w, h) is None (fix 71df1bd): same size either way *)
             ROk psize
           end
@@ -101,9 +106,22 @@ Definition render_svg (a : cli_args) (e : env) (docsize : Q * Q) : rres :=
     match fit_to_size fit doc with
     | None => RErr ETargetZero
     | Some size =>
-      if negb (pixmap_new_ok size) then RErr ETargetTooLarge else
+      if negb (canvas_ok e size) then RErr ETargetTooLarge else
       if a_area_drawing a then trim fit doc size (e_content e) else ROk size
     end.
+
+(* ---- --export-id: the transform handed to render_node and the place of the node on the page ----------------
+   export_fit_source / c20_page_offset_scaled are source-derived (fixes bd4cb7e, 85fde2f). *)
+Definition export_ts (a : cli_args) (docsize : Q * Q) (w h : Q) : ts :=
+  match export_fit_source (a_area_page a) with
+  | SrcDoc => fit_to_transform (the_fit a) (to_int_size (fst docsize) (snd docsize))
+  | SrcNode => fit_to_transform (the_fit a) (to_int_size w h)
+  end.
+(* (bbox.x() * ts.sx) as i32, (bbox.y() * ts.sy) as i32 *)
+Definition page_offset (a : cli_args) (docsize : Q * Q) (x y w h : Q) : Z * Z :=
+  let t := export_ts a docsize w h in
+  if c20_page_offset_scaled then (sat_i32 (Qtrunc (x * t_sx t)%Q), sat_i32 (Qtrunc (y * t_sy t)%Q))
+  else (sat_i32 (Qtrunc x), sat_i32 (Qtrunc y)).
 
 (* ---- process as a state machine over the source-derived step list ------------------------------------ *)
 Record pstate := { st_written : bool; st_dims : option isize }.
@@ -196,7 +214,7 @@ Definition unwrap_site_ok (u : usite) : bool :=
   (* the canvas rectangle of an existing pixmap (model: PLimitRect, see canvas_height_fits_i32) *)
   || (String.eqb (us_fn u) "trim_pixmap" && has_sub "IntRect::from_xywh(0, 0, pixmap.width(), pixmap.height()).unwrap(" (us_text u)).
 Definition unwrap_ledger_ok : bool :=
-  forallb unwrap_site_ok c20_unwrap_sites && c20_draw_guard_ok && c20_trim_shape_ok && c20_trim_fallback_ok.
+  forallb unwrap_site_ok c20_unwrap_sites && c20_draw_guard_ok && c20_canvas_alloc_ok && c20_trim_shape_ok && c20_trim_fallback_ok.
 Local Close Scope string_scope.
 
 Definition outcome_code (o : outcome) : Z := match o with Exit0 _ => 0 | Exit1 _ => 1 | Panic _ => 101 end.
@@ -213,4 +231,4 @@ Definition mk_args (w h : option Z) (z : option Q) (dpi : option Z) (syntax_ok h
      a_stdout := stdout; a_query_all := qall; a_export_id := eid; a_area_page := apage; a_area_drawing := adraw |}.
 Definition mk_env (read_ok xml_ok : bool) (tree : option (Q * Q)) (ids : nat) (node : node_status) (content : Q * Q * Q * Q) : env :=
   {| e_read_ok := read_ok; e_gunzip_ok := true; e_utf8_ok := true; e_xml_ok := xml_ok; e_tree := tree; e_ids := ids;
-     e_node := node; e_content := content; e_encode_ok := true; e_write_ok := true |}.
+     e_node := node; e_content := content; e_alloc_ok := true; e_encode_ok := true; e_write_ok := true |}.
